@@ -65,3 +65,11 @@ META["C14"] = dict(
     note="Trusts testing/synctest's virtual clock and the recording monitor-API double; timings are decided on virtual time only.",
     technique="runtime monitoring on a virtual clock: interval-overlap, bounded-count, exactly-once and deadline oracles over the recorded monitor API call log",
 )
+
+META["C15"] = dict(
+    text=("Failure patterns of stream opening are enumerated by case index (all patterns up to length 8 are reached in the thorough tier), combined with PRNG retry "
+          "configurations, cancellation instants on a virtual clock, write faults and inbound byte streams; the real network layer runs over libp2p mocknet."),
+    design_ref="DESIGN.md §2 C15",
+    note="Trusts the wrapping host/stream doubles and the recording Receiver; mocknet instead of real sockets.",
+    technique="runtime monitoring with fault injection at the libp2p host/stream boundary (enumerated open-failure patterns, write faults, cancellation on a virtual clock)",
+)
